@@ -1,8 +1,9 @@
 (** Entry points evaluated by the correspondence check (sx in, sx out). *)
-From Coq Require Import List ZArith String.
+From Coq Require Import List ZArith String Bool.
 From VLib Require Import Sx.
-From Ts Require Import Gen.TsFuns.
+From Ts Require Import Gen.TsFuns Gen.TsIkesa TsModel.
 Import ListNotations.
+Open Scope string_scope.
 
 Definition ts_of_sx (x : sx) : option ts :=
   match x with
@@ -11,6 +12,38 @@ Definition ts_of_sx (x : sx) : option ts :=
   | _ => None
   end.
 
+Definition sx_of_ts (t : ts) : sx :=
+  SxL [SxZ (ts_type t); SxZ (ip_proto t); SxZ (start_port t); SxZ (end_port t); SxZ (start_addr t); SxZ (end_addr t)].
+
+Fixpoint opt_all {A} (l : list (option A)) : option (list A) :=
+  match l with
+  | [] => Some []
+  | Some a :: r => match opt_all r with Some r' => Some (a :: r') | None => None end
+  | None :: _ => None
+  end.
+
+Definition ts_list_of_sx (x : sx) : option (list ts) :=
+  match x with SxL l => opt_all (map ts_of_sx l) | _ => None end.
+
+Definition conf_of_sx (x : sx) : option conf :=
+  match x with
+  | SxL [SxZ i; SxZ m; a; b] =>
+      match ts_of_sx a, ts_of_sx b with
+      | Some a, Some b => Some {| c_index := i; c_mode := m; c_my_ts := a; c_peer_ts := b |}
+      | _, _ => None
+      end
+  | _ => None
+  end.
+
+Definition protect_of_sx (x : sx) : option (list conf) :=
+  match x with SxL l => opt_all (map conf_of_sx l) | _ => None end.
+
+Definition sx_of_exn (e : exn) : sx :=
+  match e with TsUnacceptable => SxS "TsUnacceptable" | IndexError => SxS "IndexError" end.
+
+Definition sx_of_net (n : option (Z * Z)) : sx :=
+  match n with Some (b, p) => SxL [SxZ b; SxZ p] | None => SxS "Diverged" end.
+
 (* input: L [ts; ts]  output: L [is_subset a b; ts_eq a b; get_port a] *)
 Definition run_pair (x : sx) : sx :=
   match x with
@@ -18,6 +51,81 @@ Definition run_pair (x : sx) : sx :=
       match ts_of_sx a, ts_of_sx b with
       | Some a, Some b => SxL [sx_bool (is_subset a b); sx_bool (ts_eq a b); SxZ (get_port a)]
       | _, _ => bad_input
+      end
+  | _ => bad_input
+  end.
+
+(* input: ts   output: L [get_network; get_port] *)
+Definition run_net (x : sx) : sx :=
+  match ts_of_sx x with
+  | Some t => SxL [sx_of_net (get_network t); SxZ (get_port t)]
+  | None => bad_input
+  end.
+
+(* input: L [version; base; prefix; port; proto]   output: L [ts; get_network ts; get_port ts] *)
+Definition run_from_network (x : sx) : sx :=
+  match x with
+  | SxL [SxZ v; SxZ b; SxZ p; SxZ port; SxZ proto] =>
+      let t := from_network v b p port proto in
+      SxL [sx_of_ts t; sx_of_net (get_network t); SxZ (get_port t)]
+  | _ => bad_input
+  end.
+
+(* input: L [protect; tsis; tsrs]   output: L [index; my_ts; peer_ts] | S exception *)
+Definition run_conf (x : sx) : sx :=
+  match x with
+  | SxL [p; a; b] =>
+      match protect_of_sx p, ts_list_of_sx a, ts_list_of_sx b with
+      | Some p, Some a, Some b =>
+          match get_ipsec_configuration p a b with
+          | Ok (c, m, q) => SxL [SxZ (c_index c); sx_of_ts m; sx_of_ts q]
+          | Raise e => sx_of_exn e
+          end
+      | _, _, _ => bad_input
+      end
+  | _ => bad_input
+  end.
+
+Definition sx_of_child (c : child) : list sx :=
+  let '(src, dst, sport, dport, proto) := kernel_selectors c in
+  [sx_of_ts (ch_tsi c); sx_of_ts (ch_tsr c); SxZ (ch_mode c);
+   (* the outbound create_sa arguments *)
+   SxL [sx_of_net src; sx_of_net dst; SxZ sport; SxZ dport; SxZ proto]].
+
+(* input: L [protect; rekey = None | L [old_tsi; old_tsr]; tsis; tsrs; transport]
+   output: L [index; child.tsi; child.tsr; mode; kernel selectors] | S exception *)
+Definition run_responder (x : sx) : sx :=
+  match x with
+  | SxL [p; rk; a; b; SxZ tn] =>
+      let rekey := match rk with
+                   | SxL [o1; o2] => match ts_of_sx o1, ts_of_sx o2 with
+                                     | Some o1, Some o2 => Some (Some (o1, o2)) | _, _ => None end
+                   | SxNone => Some None
+                   | _ => None
+                   end in
+      match protect_of_sx p, rekey, ts_list_of_sx a, ts_list_of_sx b with
+      | Some p, Some rekey, Some a, Some b =>
+          match responder_child p rekey a b (negb (Z.eqb tn 0)) with
+          | Ok (c, ch) => SxL (SxZ (c_index c) :: sx_of_child ch)
+          | Raise e => sx_of_exn e
+          end
+      | _, _, _, _ => bad_input
+      end
+  | _ => bad_input
+  end.
+
+(* input: L [my_mode; offered tsi; offered tsr; transport; response tsi list; response tsr list]
+   output: L [child.tsi; child.tsr; mode; kernel selectors] | S exception *)
+Definition run_initiator (x : sx) : sx :=
+  match x with
+  | SxL [SxZ m; oi; or; SxZ tn; ri; rr] =>
+      match ts_list_of_sx oi, ts_list_of_sx or, ts_list_of_sx ri, ts_list_of_sx rr with
+      | Some oi, Some or, Some ri, Some rr =>
+          match initiator_child m oi or (negb (Z.eqb tn 0)) ri rr with
+          | Ok ch => SxL (sx_of_child ch)
+          | Raise e => sx_of_exn e
+          end
+      | _, _, _, _ => bad_input
       end
   | _ => bad_input
   end.
